@@ -11,7 +11,8 @@ from framework import Check
 THEOREMS = ["Fteik.C14_interp2d_weights", "Fteik.C14_interp3d_weights", "Fteik.C14_interp2d_at_node",
             "Fteik.C14_interp2d_between", "Fteik.C14_interp2d_bilinear_exact", "Fteik.C14_interp2d_fill",
             "Fteik.C14_interp3d_fill", "Fteik.inside_false_of_incomparable", "Fteik.axisCell_facts",
-            "Fteik.axisCell_at_node", "Fteik.ss_spec"]
+            "Fteik.axisCell_at_node", "Fteik.ss_spec", "Fteik.inside_node", "Fteik.C14_interp3d_at_node",
+            "Fteik.C14_interp3d_between"]
 
 AXCLS = ["first", "node", "last", "cell", "below", "above", "nan"]
 
@@ -87,7 +88,7 @@ def run(tier):
     ck.rule = ("grids (shape, spacing, origin, value field kind) x query points drawn per axis from the classes "
                f"{AXCLS}; distinct = distinct (ndim, per-axis class tuple, field kind, fill kind) signatures")
     r = G.rng_for(C.seed(), "C14")
-    ck.lean(["FteikVerif.Props.C14"], THEOREMS)
+    ck.lean(["FteikVerif.Props.C14", "FteikVerif.Props.C14b"], THEOREMS)
     ng = 6 if tier == "quick" else 40
     npts = 40 if tier == "quick" else 120
     # ---- Tie A: kernel-level correspondence, every boundary class
